@@ -224,10 +224,11 @@ def simplify_math_iterators(source: str) -> str:
 
     for node in core.walk(root, template):
         arg = node.args[0]
+        if node.func.id != "sum":
+            # The closed forms below are sums, they do not apply to len()
+            continue
         if core.match_template(arg, ast.Call(func=ast.Name(id="range"))):
             if any((node is not arg for node in core.walk(arg, (ast.Attribute, ast.Call)))):
-                continue
-            if node.func.id != "sum":
                 continue
             yield node, _sum_range(arg)
 
@@ -238,6 +239,8 @@ def simplify_math_iterators(source: str) -> str:
                 core.match_template(node.func, ast.Name(id="range"))
                 for node in core.walk(arg, ast.Call)
             ):
+                continue
+            if not arg.elts:
                 continue
             yield node, _sum_constants(arg.elts)
 
